@@ -28,6 +28,59 @@ def flatten_puts(events):
     return out
 
 
+def recombine(stream, st, m=None):
+    """a run of byte symbols (absint.be_byte) that are the trailing k bytes of the n-byte image of v, on a cell where v < 256^k,
+    is the k-byte big-endian image of v"""
+    bs = st.extra.get('bytesyms') or {}
+    if not bs:
+        return stream
+    out = []
+    i = 0
+    while i < len(stream):
+        t = stream[i]
+        info = None
+        if isinstance(t, Int):
+            sg = t.single()
+            if sg and sg[1] == 1 and sg[2] == 0 and sg[0] in bs:
+                info = bs[sg[0]]
+        if info is None:
+            out.append(t)
+            i += 1
+            continue
+        val, n, idx = info[:3]
+        k = n - idx
+        run = [t]
+        j = i + 1
+        want = idx + 1
+        while j < len(stream) and want < n:
+            u = stream[j]
+            inf2 = None
+            if isinstance(u, Int):
+                sg2 = u.single()
+                if sg2 and sg2[1] == 1 and sg2[2] == 0 and sg2[0] in bs:
+                    inf2 = bs[sg2[0]]
+            if inf2 is None or inf2[1] != n or inf2[2] != want or inf2[0] != val:
+                # the lowest byte may have been resolved to `val - base` already
+                break
+            run.append(u)
+            want += 1
+            j += 1
+        if want == n:
+            lo = hi = None
+            try:
+                lo = val.c + sum(min(iv_min(st.ranges[s_]) * k_, iv_max(st.ranges[s_]) * k_) for s_, k_ in val.terms)
+                hi = val.c + sum(max(iv_min(st.ranges[s_]) * k_, iv_max(st.ranges[s_]) * k_) for s_, k_ in val.terms)
+            except KeyError:
+                pass
+            if lo is not None and lo >= 0 and hi < 1 << (8 * k):
+                out.append(BeBytes(val, k, 'be'))
+                i = j
+                continue
+        out.append(t)
+        i += 1
+    return out
+
+
 _enc_cache = {}
 
 
@@ -52,7 +105,7 @@ def enc_rows(prog, method):
     outs = m.run(inst, args, st)
     rows = []
     for o in outs:
-        rows.append(Row(o.st, o.kind, flatten_puts(o.st.events), l1.result_kind(o.value) if o.kind == 'return' else 'diverge', set(o.st.flags), list(o.st.events)))
+        rows.append(Row(o.st, o.kind, recombine(flatten_puts(o.st.events), o.st), l1.result_kind(o.value) if o.kind == 'return' else 'diverge', set(o.st.flags), list(o.st.events)))
     res = (inst, rows, m)
     _enc_cache[key] = res
     return res
